@@ -709,7 +709,13 @@ struct PadKind {
 }
 
 const PAD_KINDS: [&str; 9] = ["valid1", "valid2", "valid3", "unsigned", "badsig", "inflated", "foreign", "wrongkey", "wrongkind"];
-const CHUNK_KINDS: [&str; 6] = ["authentic", "wrongcontent", "wrongkey", "wrongkind", "padkind", "paidkind"];
+const CHUNK_KINDS: [&str; 7] = ["authentic", "wrongcontent", "wrongkey", "wrongkind", "padkind", "paidkind", "paidsubst"];
+/// a with-payment record wrapping (a proof of payment without quotes, a chunk of `bytes`)
+fn paid_wrapped(key: libp2p::kad::RecordKey, bytes: &Bytes) -> Record {
+    let proof = ant_evm::ProofOfPayment { peer_quotes: vec![] };
+    let value = try_serialize_record(&(proof, Chunk::new(bytes.clone())), RecordKind::ChunkWithPayment).expect("ser").to_vec();
+    Record { key, value, publisher: None, expires: None }
+}
 
 fn build_pads(owner: &bls::SecretKey, other: &bls::SecretKey) -> Vec<PadKind> {
     let pk = owner.public_key();
@@ -820,6 +826,7 @@ impl AuthWorld {
                 r.key = chunk_key(ax);
                 r
             }
+            "paidsubst" => paid_wrapped(chunk_key(ax), &self.y),
             other => panic!("chunk reply kind {other}"),
         }
     }
@@ -952,6 +959,7 @@ async fn data_get_subst(w: &mut AuthWorld, d1: &Bytes, e1: &Encd, d2: &Bytes, e2
                 "wrongkey" => Ok(chunk_record(chunk_key(XorName(sha3(&repl))), &repl)),
                 "wrongkind" => Ok(Record { key: p.key.clone(), value: try_serialize_record(&Chunk::new(repl.clone()), RecordKind::Register).expect("ser").to_vec(), publisher: None, expires: None }),
                 "missing" => Err(GetRecordError::RecordNotFound),
+                "paidsubst" => Ok(paid_wrapped(p.key.clone(), &repl)),
                 other => panic!("kind {other}"),
             }
         } else {
